@@ -254,14 +254,14 @@ def concrete(family, params):
         P1 = [F(float(x)) for x in p[1]]
         W = [F(float(x)) for x in w]
         mx = max(abs(sum(wi * x**a * y**b for wi, x, y in zip(W, P0, P1)) - I2(a, b)) for a in range(k + 1) for b in range(k + 1 - a))
-        return {"gap": float(mx) if mx > TOL else 0.0, "max_err": float(mx), "key": "tri_exact/%d" % k}
+        return {"gap": 1.0 if mx > TOL else 0.0, "max_err": float(mx), "tolerance": float(TOL), "key": "tri_exact/%d" % k}
     if family == "gauss_exact":
         k = params["order"]
         x, w = g1.rule(k)
         X = [F(float(v)) for v in x]
         W = [F(float(v)) for v in w]
         mx = max(abs(sum(wi * xi**d for wi, xi in zip(W, X)) - F(1, d + 1)) for d in range(2 * k))
-        return {"gap": float(mx) if mx > TOL else 0.0, "max_err": float(mx), "key": "gauss_exact/%d" % k}
+        return {"gap": 1.0 if mx > TOL else 0.0, "max_err": float(mx), "tolerance": float(TOL), "key": "gauss_exact/%d" % k}
     if family == "duffy_exact":
         k, adj = params["order"], params["adj"]
         pt, ps, w = dg.rule(k, adj)
@@ -276,7 +276,7 @@ def concrete(family, params):
                     continue
                 q = float(np.sum(w * pt[0] ** a * pt[1] ** b * ps[0] ** c * ps[1] ** d))
                 mx = max(mx, abs(q - float(I2(a, b) * I2(c, d))))
-        return {"gap": mx if mx > 1e-12 else 0.0, "max_err": mx, "key": "duffy_exact/%s/%d" % (adj, k)}
+        return {"gap": 1.0 if mx > 1e-12 else 0.0, "max_err": mx, "tolerance": 1e-12, "key": "duffy_exact/%s/%d" % (adj, k)}
     if family == "duffy_count":
         adj = params["adj"]
         fac = {"coincident": 6, "edge_adjacent": 5, "vertex_adjacent": 2}[adj]
@@ -290,7 +290,7 @@ def concrete(family, params):
             for arr in (pt, ps):
                 worst = max(worst, float(np.max(-arr[0])), float(np.max(-arr[1])), float(np.max(arr[0] + arr[1] - 1)))
             worst = max(worst, float(np.max(-w)))
-        return {"gap": worst if worst > 1e-12 else 0.0, "key": "duffy_inside/%s" % adj}
+        return {"gap": 1.0 if worst > 1e-12 else 0.0, "worst": worst, "key": "duffy_inside/%s" % adj}
     if family == "lookup":
         nm = params["rule"]
         fn, hi = (tg.rule, 20) if nm == "triangle" else (g1.rule, 30)
